@@ -649,7 +649,19 @@ def entry_cases(tier):
                 cases.append({"part": "entry", "ep": "calib", "det": kind, "key": k, "kcls": "valid"})
             for k, cls in picked:
                 cases.append({"part": "entry", "ep": "calib", "det": kind, "key": k, "kcls": cls})
+    # the same model name in two groups, one enabled and one disabled (both orders): a key addresses ONE model - the
+    # argument of the disabled one must be refused, the argument of the enabled one must be swept
+    for which_disabled in ("first", "second"):
+        for target in ("enabled-one", "disabled-one"):
+            for ex in ("seq", "dask"):
+                for mode in (("product", "sequential") if thorough else ("product",)):
+                    cases.append({"part": "entry", "ep": "dupname", "det": "ccd", "key": "dup.arguments.i",
+                                  "kcls": "valid" if target == "enabled-one" else "disabled-model", "exec": ex,
+                                  "mode": mode, "disabled": which_disabled, "aim": target})
     for c in cases:
+        if c["ep"] == "dupname":
+            c["target"] = "model-argument"
+            continue
         src = c["key"] if c["kcls"] in ("valid", "disabled-model") else next(
             (s for k, _, s in derived_invalid(c["det"]) if k == c["key"]), c["key"])
         c["target"] = ("detector-field" if src.startswith("detector.") else
@@ -700,12 +712,24 @@ def run_entry(case):
 
     det = make_detector(kind)
     pipe = mk.pipeline(model_specs())
+    if ep == "dupname":
+        first_enabled = case["disabled"] == "second"
+        pipe = mk.pipeline({
+            "photon_collection": [("vp.cprobes.plain", "dup", {"i": 3 + _s()}, first_enabled)],
+            "charge_generation": [("vp.cprobes.plain", "other", {"i": 1}, True)],
+            "charge_collection": [("vp.cprobes.plain", "dup", {"i": 7 + _s()}, not first_enabled)],
+        })
+        aim_first = (case["aim"] == "enabled-one") == first_enabled
+        key = ("pipeline.photon_collection." if aim_first else "pipeline.charge_collection.") + "dup.arguments.i"
+        case = dict(case, key=key)
     before = snapshot.snapshot([det, pipe])
     probes.reset()
     outcome = None
     tmp = tempfile.mkdtemp(prefix="vp_c08_")
     try:
-        if ep == "override":
+        if ep == "dupname":
+            outcome = _run_sweep(case, det, pipe, before, bad)
+        elif ep == "override":
             v = value_of(case["value"])
             exc = None
             try:
